@@ -58,6 +58,9 @@ def jobs(tier, seed):
     J('no_frames', shape={'P': 2, 'C': 1, 'sub': 1, 'F': 0})
     J('points_only_full_analog_group', shape={'P': 2, 'C': 0, 'sub': 1, 'F': 2})
     J('sub1', shape={'P': 1, 'C': 2, 'sub': 1, 'F': 1})
+    J('reserved_words', reserved=True, shape={'P': 1, 'C': 1, 'sub': 1, 'F': 1})
+    J('desc128', shape={'P': 1, 'C': 0, 'sub': 0, 'F': 1}, analog='empty', extras=[{'name': 'D128', 'type': 2, 'dims': [1], 'desc_len': 128}])
+    J('desc255', shape={'P': 1, 'C': 0, 'sub': 0, 'F': 1}, analog='empty', extras=[{'name': 'D255', 'type': 4, 'dims': [2], 'desc_len': 255}], desc_len=130)
     if tier == 'thorough':
         for z in (0, 1, 512):
             for pb in (2, 3):
@@ -92,7 +95,7 @@ def run_job(engine, job):
     files = {'in.c3d': gen.to_engine_cells(cells)}
     def obligations(sec, job, st):
         return obligations_for(cells, lay, c, obsmodel.parse_dump(sec['gen1']))
-    return std_run(engine, job, obligations, 'end', ID, job['name'], files=files, assume=S.cons)
+    return std_run(engine, job, obligations, 'end', ID, job['name'], files=files, assume=S.cons, fatal_as='violation')
 
 def native_confirm(nat, v):
     rp = v['replay']
